@@ -842,6 +842,30 @@ func c03semantic(c *Ctx, r *mon.Rand, b *c03base) []c03edit {
 			ss.FillBytes(out[n+1:])
 			return out
 		})
+		// r (or s) replaced by the same residue plus a multiple of the group order, when that still fits the
+		// half (always on P-521, whose halves have seven spare bits): another integer, not a valid signature
+		for _, which := range []string{"r", "s", "both"} {
+			for _, mult := range []int64{1, 2, 100} {
+				which, mult := which, mult
+				sigEdit(fmt.Sprintf("ecdsa-%s-plus-%dn", which, mult), func(s []byte) []byte {
+					rr, ss, ok := split(s)
+					if !ok {
+						return nil
+					}
+					add := new(big.Int).Mul(pub.Curve.Params().N, big.NewInt(mult))
+					if which != "s" {
+						rr = new(big.Int).Add(rr, add)
+					}
+					if which != "r" {
+						ss = new(big.Int).Add(ss, add)
+					}
+					if rr.BitLen() > 8*n || ss.BitLen() > 8*n {
+						return nil
+					}
+					return append(rr.FillBytes(make([]byte, n)), ss.FillBytes(make([]byte, n))...)
+				})
+			}
+		}
 		sigEdit("ecdsa-swap-r-s", func(s []byte) []byte {
 			if len(s) != 2*n {
 				return nil
